@@ -9,8 +9,9 @@ illegal moves, the stop test, the accumulator with `legalSeen`, killer update at
 the list, `legalSeen` = "a legal move was met", inside the window the recorded best move is a legal move attaining the
 value.  The arithmetic is that of `Minimax.abTLoop_ok`.
 
-No flag poll: the hypothesis is on the result – the node counter returned is below the poll period (the counter only
-grows, `frame_stepRel`), which is how `NoPoll` is stated for a whole `go`.
+No interruption (`NoIntr s n`, `n` = the node counter the search returns): either `n` is below the poll period, so no flag
+poll happens at all (`NoPoll`; the counter only grows, `frame_stepRel`), or the state is `Calm` (no message waiting, no move
+time), so a poll only emits its periodic info line (`calm_stepRel`).
 -/
 namespace Inkayaku.SearchSim
 open Inkayaku.Board Inkayaku.Eval Inkayaku.WF Inkayaku.BoardCongr Inkayaku.Minimax Inkayaku.SpecSearch Inkayaku.Search
@@ -39,7 +40,7 @@ def NSim (b0 : Board) (D fuel : Nat) : Prop :=
   ∀ (s : St) (k : Nat) (α β : Int) (isPv : Bool) (hash ph : UInt64),
     k ≤ D → Reach b0 k s.board → Inv fuel s.board → 66 + (D - k) ≤ fuel → SOK b0 D s → hash = Zobrist.hash s.board →
     (k = 0 → genLegal s.board ≠ []) → lossScore ≤ α → α < β → β ≤ -lossScore →
-    (negamax fuel s k D α β isPv hash ph).2.negamaxNodes < s.pollPeriod →
+    NoIntr s (negamax fuel s k D α β isPv hash ph).2.negamaxNodes →
     NodePost b0 D s k α β hash (negamax fuel s k D α β isPv hash ph)
 
 /-- the contract of the move loop of a node with board `bN` at ply `k` -/
@@ -74,7 +75,7 @@ theorem nLoop_sim {b0 : Board} {D fuel : Nat} (hn : NSim b0 D fuel)
       vis s.board = vis bN → SOK b0 D s → acc.alpha < β → acc.alpha = max α₀ acc.bestValue →
       (acc.bestValue ≤ α₀ → M ≤ acc.bestValue) → (α₀ < acc.bestValue → acc.bestValue = M) →
       (α₀ < acc.bestValue → ChosenC bN (D - k - 1) acc.bestMove acc.bestValue) →
-      (negamaxLoop fuel s moves k D β isPv pvMove hash ph rem acc).2.2.negamaxNodes < s.pollPeriod →
+      NoIntr s (negamaxLoop fuel s moves k D β isPv pvMove hash ph rem acc).2.2.negamaxNodes →
       LoopPost b0 D bN k α₀ β M acc.legalSeen moves (negamaxLoop fuel s moves k D β isPv pvMove hash ph rem acc) := by
   have hwf := hinv.wf
   intro moves
@@ -104,25 +105,32 @@ theorem nLoop_sim {b0 : Board} {D fuel : Nat} (hn : NSim b0 D fuel)
       -- the child call
       have hkept := negamax_rel (kept_stepRel D) fuel { s with board := make s.board m } (k + 1) (-β) (-acc.alpha)
         (childPvOf isPv pvMove m) (hash ^^^ (Zobrist.xorOf m.f).1) (ph ^^^ (Zobrist.xorOf m.f).2)
+      have hcalmrel := negamax_rel (calm_stepRel D) fuel { s with board := make s.board m } (k + 1) (-β) (-acc.alpha)
+        (childPvOf isPv pvMove m) (hash ^^^ (Zobrist.xorOf m.f).1) (ph ^^^ (Zobrist.xorOf m.f).2)
       have hchild := hn { s with board := make s.board m } (k + 1) (-β) (-acc.alpha)
         (childPvOf isPv pvMove m) (hash ^^^ (Zobrist.xorOf m.f).1) (ph ^^^ (Zobrist.xorOf m.f).2)
         (by omega) (Reach.step hreach hs hm hl)
         (child_inv boardLaws hinv hs hgen (by rw [hval]; exact hl)).1 hfuel (hsok.setBoard _)
         (by rw [hhash]; exact (hash_child hwf hs hm).symm) (by omega) (by omega) (by omega) (by omega)
       generalize negamax fuel { s with board := make s.board m } (k + 1) D (-β) (-acc.alpha)
-        (childPvOf isPv pvMove m) (hash ^^^ (Zobrist.xorOf m.f).1) (ph ^^^ (Zobrist.xorOf m.f).2) = r at hN hkept hchild ⊢
+        (childPvOf isPv pvMove m) (hash ^^^ (Zobrist.xorOf m.f).1) (ph ^^^ (Zobrist.xorOf m.f).2) = r at hN hkept hcalmrel hchild ⊢
       have hpp : r.2.pollPeriod = s.pollPeriod := hkept.2.2.2.1
-      -- the child returns below the poll period
-      have hrN : r.2.negamaxNodes < s.pollPeriod := by
-        by_cases hst : r.2.stop = true
-        · rw [if_pos hst] at hN; exact hN
-        · rw [if_neg hst] at hN
-          by_cases hcut : (accUpdate acc m r.1).alpha ≥ β
-          · rw [if_pos hcut] at hN; exact hN
-          · rw [if_neg hcut] at hN
-            have hfr := nLoop_rel (frame_stepRel D) (negamax_rel (frame_stepRel D) fuel) rest
-              { r.2 with board := unmake r.2.board m } k β isPv pvMove hash ph rem (accUpdate acc m r.1)
-            exact Nat.lt_of_le_of_lt hfr.nn hN
+      have hcalm : Calm s → Calm r.2 := hcalmrel
+      -- the child is not interrupted either
+      have hrN : NoIntr { s with board := make s.board m } r.2.negamaxNodes := by
+        rcases hN with hN | hN
+        · left
+          show r.2.negamaxNodes < s.pollPeriod
+          by_cases hst : r.2.stop = true
+          · rw [if_pos hst] at hN; exact hN
+          · rw [if_neg hst] at hN
+            by_cases hcut : (accUpdate acc m r.1).alpha ≥ β
+            · rw [if_pos hcut] at hN; exact hN
+            · rw [if_neg hcut] at hN
+              have hfr := nLoop_rel (frame_stepRel D) (negamax_rel (frame_stepRel D) fuel) rest
+                { r.2 with board := unmake r.2.board m } k β isPv pvMove hash ph rem (accUpdate acc m r.1)
+              exact Nat.lt_of_le_of_lt hfr.nn hN
+        · right; exact hN
       obtain ⟨⟨c1, c2, c3⟩, hvis, hsok', _⟩ := hchild hrN
       have hst : r.2.stop = false := hsok'.stop
       have hst' : ¬ r.2.stop = true := by rw [hst]; exact Bool.false_ne_true
@@ -158,7 +166,10 @@ theorem nLoop_sim {b0 : Board} {D fuel : Nat} (hn : NSim b0 D fuel)
             (max M (-ec)) hb3 hsok3 (by simp only; omega) (by simp only; omega) (by simp only; omega)
             (by simp only; omega)
             (fun h => ⟨m, rfl, hlegal, by rw [hecv]; simp only at h ⊢; omega⟩)
-            (by rw [show ({ r.2 with board := unmake r.2.board m } : St).pollPeriod = r.2.pollPeriod from rfl, hpp]; exact hN)
+            (by
+              rcases hN with hN | hN
+              · left; rw [show ({ r.2 with board := unmake r.2.board m } : St).pollPeriod = r.2.pollPeriod from rfl, hpp]; exact hN
+              · right; exact hcalm hN)
           obtain ⟨p1, p2, p3, p4, p5, p6⟩ := this
           exact ⟨p1, p2, by rw [p3]; rfl, p4, p5, p6⟩
       · rw [accUpdate_le acc m r.1 (by rw [hrv]; exact hv)] at hN ⊢
@@ -170,7 +181,10 @@ theorem nLoop_sim {b0 : Board} {D fuel : Nat} (hn : NSim b0 D fuel)
             { acc with legalSeen := true, alpha := max acc.alpha acc.bestValue }
             (max M (-ec)) hb3 hsok3 (by simp only; omega) (by simp only; omega) (by simp only; omega)
             (by simp only; omega) h3
-            (by rw [show ({ r.2 with board := unmake r.2.board m } : St).pollPeriod = r.2.pollPeriod from rfl, hpp]; exact hN)
+            (by
+              rcases hN with hN | hN
+              · left; rw [show ({ r.2 with board := unmake r.2.board m } : St).pollPeriod = r.2.pollPeriod from rfl, hpp]; exact hN
+              · right; exact hcalm hN)
           obtain ⟨p1, p2, p3, p4, p5, p6⟩ := this
           exact ⟨p1, p2, by rw [p3]; rfl, p4, p5, p6⟩
     · -- an illegal move is skipped
